@@ -104,20 +104,116 @@ class _multi:
         return False
 
 
-def gen_case(rng, tier):
+BATCH_PATTERNS = ["params+data", "params-only", "data-only", "data-only,test-shared", "params(2,1)xdata(3)"]
+
+
+def gen_case(rng, tier, family="single"):
     nmax = 5 if tier == "quick" else 7
     n, t, d = rng.randint(1, nmax), rng.randint(1, 3), rng.randint(1, 3)
+    if family == "multitask":
+        n, t = rng.randint(1, 3), rng.randint(1, 2)
+    if family == "batch":
+        n = rng.randint(1, 4)
     grid = lambda: rng.randint(-24, 24) / 8.0  # noqa: E731   dyadic inputs
     # separated points (rejected otherwise) keep the problem well conditioned
     for _ in range(200):
         pts = [[grid() for _ in range(d)] for _ in range(n + t)]
         if all(max(abs(a - b) for a, b in zip(p, q)) >= 0.25 for p, q in itertools.combinations(pts, 2)):
             break
-    return dict(n=n, t=t, d=d, X=pts[:n], Xs=pts[n:], y=[rng.randint(-16, 16) / 8.0 for _ in range(n)],
-                kernel=rng.choice(KERNELS), mean=rng.choice(MEANS), lik=rng.choice(LIKS), hseed=rng.randint(0, 10 ** 9))
+    c = dict(family=family, n=n, t=t, d=d, X=pts[:n], Xs=pts[n:], y=[rng.randint(-16, 16) / 8.0 for _ in range(n)],
+             kernel=rng.choice(KERNELS), mean=rng.choice(MEANS), lik=rng.choice(LIKS), hseed=rng.randint(0, 10 ** 9))
+    if family == "multitask":
+        c.update(tasks=2, rank=rng.choice([0, 1]), noise_rank=rng.choice([0, 1]), kernel=rng.choice(["rbf", "matern25", "rq"]),
+                 y=[[rng.randint(-16, 16) / 8.0 for _ in range(2)] for _ in range(n)])
+    if family == "batch":
+        c.update(pattern=rng.choice(BATCH_PATTERNS), kernel=rng.choice(["rbf", "matern15", "rq", "scale_rbf"]),
+                 mean=rng.choice(["zero", "constant"]), lik=rng.choice(["gaussian", "fixed"]))
+    return c
+
+
+class MTGP(gpytorch.models.ExactGP):
+    def __init__(self, x, y, lik, T, rank, kern):
+        super().__init__(x, y, lik)
+        self.mean_module = gpytorch.means.MultitaskMean(gpytorch.means.ConstantMean(), num_tasks=T)
+        self.covar_module = gpytorch.kernels.MultitaskKernel(kern, num_tasks=T, rank=rank)
+
+    def forward(self, x):
+        return gpytorch.distributions.MultitaskMultivariateNormal(self.mean_module(x), self.covar_module(x))
+
+
+def build_multitask(case):
+    rng = random.Random(case["hseed"])
+    torch.manual_seed(case["hseed"] % (2 ** 31))
+    T = case["tasks"]
+    X = torch.tensor(case["X"]); y = torch.tensor(case["y"])
+    lik = gpytorch.likelihoods.MultitaskGaussianLikelihood(num_tasks=T, rank=case["noise_rank"])
+    lik.noise = rng.uniform(0.05, 0.5)
+    if case["noise_rank"] == 0:
+        lik.task_noises = torch.tensor([rng.uniform(0.05, 0.5) for _ in range(T)])
+    else:
+        lik.task_noise_covar_factor.data = torch.tensor([[rng.uniform(-0.7, 0.7)] for _ in range(T)])
+    model = MTGP(X, y, lik, T, case["rank"], make_kernel(case["kernel"], case["d"], rng))
+    for bm in model.mean_module.base_means:
+        bm.constant.data.fill_(rng.uniform(-1, 1))
+    model.covar_module.task_covar_module.covar_factor.data = torch.tensor(
+        [[rng.uniform(-1, 1) for _ in range(case["rank"])] for _ in range(T)]).reshape(T, case["rank"])
+    model.covar_module.task_covar_module.var = torch.tensor([rng.uniform(0.2, 1.5) for _ in range(T)])
+    return model, lik, X, y, torch.tensor(case["Xs"]), None
+
+
+def build_batch(case):
+    """batched exact GP: parameters and/or data carry batch dimensions that broadcast"""
+    rng = random.Random(case["hseed"])
+    pat = case["pattern"]
+    pshape, dshape = {"params+data": ((2,), (2,)), "params-only": ((2,), ()), "data-only": ((), (2,)),
+                      "data-only,test-shared": ((), (2,)), "params(2,1)xdata(3)": ((2, 1), (3,))}[pat]
+    n, t, d = case["n"], case["t"], case["d"]
+    full = torch.broadcast_shapes(pshape, dshape)
+    k = gpytorch.kernels
+    bs = torch.Size(pshape)
+    par = lambda lo, hi: torch.tensor([rng.uniform(lo, hi) for _ in range(max(1, bs.numel()))]).reshape(*bs, 1, 1) if bs else rng.uniform(lo, hi)  # noqa: E731
+    nm = case["kernel"]
+    if nm == "rbf":
+        kern = k.RBFKernel(batch_shape=bs); kern.lengthscale = par(0.4, 2.0)
+    elif nm == "matern15":
+        kern = k.MaternKernel(nu=1.5, batch_shape=bs); kern.lengthscale = par(0.4, 2.0)
+    elif nm == "rq":
+        kern = k.RQKernel(batch_shape=bs); kern.lengthscale = par(0.4, 2.0)
+        kern.alpha = par(0.5, 3).reshape(*bs, 1) if bs else par(0.5, 3)
+    else:
+        base = k.RBFKernel(batch_shape=bs); base.lengthscale = par(0.4, 2.0)
+        kern = k.ScaleKernel(base, batch_shape=bs)
+        kern.outputscale = par(0.3, 3).reshape(bs) if bs else par(0.3, 3)
+    if case["mean"] == "zero":
+        mean = gpytorch.means.ZeroMean(batch_shape=bs)
+    else:
+        mean = gpytorch.means.ConstantMean(batch_shape=bs)
+        mean.constant.data = torch.tensor([rng.uniform(-2, 2) for _ in range(max(1, bs.numel()))]).reshape(bs)
+    # data: element-wise perturbed copies of the base inputs so that batch elements differ
+    def expand_pts(pts, shape):
+        base = torch.tensor(pts)
+        if not shape:
+            return base
+        reps = [base + 0.125 * i for i in range(torch.Size(shape).numel())]
+        return torch.stack(reps).reshape(*shape, *base.shape)
+    X = expand_pts(case["X"], dshape)
+    Xs = torch.tensor(case["Xs"]) if pat == "data-only,test-shared" else expand_pts(case["Xs"], dshape)
+    y = torch.tensor([[rng.randint(-16, 16) / 8.0 for _ in range(n)] for _ in range(torch.Size(full).numel())]).reshape(*full, n)
+    if case["lik"] == "gaussian":
+        lik = gpytorch.likelihoods.GaussianLikelihood(batch_shape=bs)
+        lik.noise = par(0.05, 0.8).reshape(*bs, 1) if bs else par(0.05, 0.8)
+    else:
+        lik = gpytorch.likelihoods.FixedNoiseGaussianLikelihood(
+            torch.tensor([rng.uniform(0.05, 0.8) for _ in range(torch.Size(full).numel() * n)]).reshape(*full, n))
+    model = GP(X, y, lik, mean, kern)
+    return model, lik, X, y, Xs, None
 
 
 def build(case):
+    if case.get("family") == "multitask":
+        return build_multitask(case)
+    if case.get("family") == "batch":
+        return build_batch(case)
     rng = random.Random(case["hseed"])
     X = torch.tensor(case["X"]); y = torch.tensor(case["y"])
     lik = make_lik(case["lik"], case["n"], rng)
@@ -126,43 +222,70 @@ def build(case):
     return model, lik, X, y, torch.tensor(case["Xs"]), torch.tensor(test_noise)
 
 
+def _joint_inputs(model, X, Xs):
+    """[X; X*] with batch shapes broadcast exactly as ExactGP.__call__ does"""
+    bshape = torch.broadcast_shapes(X.shape[:-2], Xs.shape[:-2])
+    Xe = X.expand(*bshape, *X.shape[-2:]); Xse = Xs.expand(*bshape, *Xs.shape[-2:])
+    return torch.cat([Xe, Xse], -2)
+
+
 def impl_inputs(case):
-    """the model's own prior pieces, as exact rationals"""
+    """the model's own prior pieces as exact rationals, one entry per element of the broadcast batch"""
     model, lik, X, y, Xs, _ = build(case)
     model.train(); lik.train()
     with torch.no_grad(), gs.debug(False):
-        joint = model.forward(torch.cat([X, Xs], 0))
+        joint = model.forward(_joint_inputs(model, X, Xs))
         KJ = joint.covariance_matrix
-        mu = joint.mean
-        A = lik(model.forward(X), X).covariance_matrix
-    n = case["n"]
-    S = [[C.frac(A[i, j].item()) - C.frac(KJ[i, j].item()) for j in range(n)] for i in range(n)]
-    return KJ.tolist(), mu.tolist(), S
+        mu = joint.loc
+        tp = model.forward(X)
+        A = lik(tp, X).covariance_matrix
+        Kxx = tp.covariance_matrix
+    bshape = torch.broadcast_shapes(KJ.shape[:-2], A.shape[:-2], y.shape[:-(2 if case.get("family") == "multitask" else 1)])
+    N, ntr = KJ.shape[-1], A.shape[-1]
+    KJ = KJ.expand(*bshape, N, N).reshape(-1, N, N); mu = mu.expand(*bshape, N).reshape(-1, N)
+    A = A.expand(*bshape, ntr, ntr).reshape(-1, ntr, ntr); Kxx = Kxx.expand(*bshape, ntr, ntr).reshape(-1, ntr, ntr)
+    yy = y.reshape(*y.shape[:-2], -1) if case.get("family") == "multitask" else y
+    yy = yy.expand(*bshape, ntr).reshape(-1, ntr)
+    res = []
+    for b in range(KJ.shape[0]):
+        S = [[C.frac(A[b, i, j].item()) - C.frac(Kxx[b, i, j].item()) for j in range(ntr)] for i in range(ntr)]
+        res.append((KJ[b].tolist(), mu[b].tolist(), S, yy[b].tolist()))
+    return res
 
 
 def impl_outputs(case, flags):
     model, lik, X, y, Xs, tn = build(case)
     model.eval(); lik.eval()
     cms = [FLAGS[f]() for f in flags]
+    fam = case.get("family", "single")
     with torch.no_grad(), _multi(*cms):
         post = model(Xs)
-        mean = post.mean.tolist()
-        cov = post.covariance_matrix.tolist()
-        var = post.variance.tolist()
-        if case["lik"] == "gaussian":
-            marg = lik(post).covariance_matrix
-            noise = [lik.noise.item()] * case["t"]
-        else:
-            marg = lik(post, noise=tn).covariance_matrix
-            extra = lik.second_noise.item() if case["lik"] == "fixed+learned" else 0.0
-            noise = [v + extra for v in tn.tolist()]
-        added = (marg - post.covariance_matrix).tolist()
-    return dict(mean=mean, cov=cov, var=var, added=added, noise=noise)
+        m = post.loc; cov = post.covariance_matrix
+        var = post.variance
+        if fam == "multitask":
+            var = var.reshape(*var.shape[:-2], -1)
+        N = m.shape[-1]
+        bshape = torch.broadcast_shapes(m.shape[:-1], cov.shape[:-2])
+        res = []
+        mm = m.expand(*bshape, N).reshape(-1, N); cc = cov.expand(*bshape, N, N).reshape(-1, N, N)
+        vv = var.expand(*bshape, N).reshape(-1, N)
+        for b in range(mm.shape[0]):
+            res.append(dict(mean=mm[b].tolist(), cov=cc[b].tolist(), var=vv[b].tolist(), added=None, noise=None))
+        if fam == "single":
+            if case["lik"] == "gaussian":
+                marg = lik(post).covariance_matrix
+                noise = [lik.noise.item()] * case["t"]
+            else:
+                marg = lik(post, noise=tn).covariance_matrix
+                extra = lik.second_noise.item() if case["lik"] == "fixed+learned" else 0.0
+                noise = [v + extra for v in tn.tolist()]
+            res[0]["added"] = (marg - post.covariance_matrix).tolist()
+            res[0]["noise"] = noise
+    return res
 
 
-def coq_case(case, KJ, mu, S):
-    return "(%d%%nat, %d%%nat, %s, %s, %s, %s)" % (case["n"], case["t"], C.qc_mat(KJ), C.qc_vec(mu),
-                                                     C.qc_mat(S), C.qc_vec(case["y"]))
+def coq_case(n, t, KJ, mu, S, y):
+    return "(%d%%nat, %d%%nat, %s, %s, %s, %s)" % (n, t, C.qc_mat(KJ), C.qc_vec(mu), C.qc_mat(S), C.qc_vec(y))
 
 
 ITERATIVE = {"cg", "fast_pred_var"}
@@ -175,11 +298,27 @@ def tol(flags):
     return 1e-8
 
 
-def compare(out, case, flags, res, mm, mc):
-    t = case["t"]
+def external_kron_root_defect(case, flags):
+    """True iff, on this very case, linear_operator's root_inv_decomposition of the train covariance is not a
+    root of its inverse (checked densely) - i.e. the disagreement is caused outside /repo."""
+    model, lik, X, y, Xs, _ = build(case)
+    model.eval(); lik.eval()
+    with torch.no_grad(), _multi(*[FLAGS[f]() for f in flags]):
+        model(Xs)
+        A = model.prediction_strategy.lik_train_train_covar
+        R = A.root_inv_decomposition().root.to_dense()
+        err = (R @ R.transpose(-1, -2) - torch.linalg.inv(A.to_dense())).abs().max().item()
+    return err > 1e-6
+
+
+def compare(out, case, flags, res, mm, mc, b=0):
+    t = len(mm)
     a = tol(flags)
-    desc = dict(case=case, flags=sorted(flags))
+    desc = dict(case=case, flags=sorted(flags), batch_element=b)
     path = "+".join(sorted(flags)) or "default"
+    fam = case.get("family", "single")
+    if fam != "single":
+        path = fam + (":" + case["pattern"] if fam == "batch" else "") + ":" + path
     for i in range(t):
         if not C.close(res["mean"][i], mm[i], a, a):
             out.fail("posterior-mean:%s" % path, "posterior mean differs from the closed-form conditional",
@@ -195,6 +334,13 @@ def compare(out, case, flags, res, mm, mc):
         for j in range(t):
             if not C.close(res["cov"][i][j], mc[i][j], a, a):
                 bad = True
+    if bad and fam == "multitask" and {"cg", "fast_pred_var"} <= set(flags) and external_kron_root_defect(case, flags):
+        # demonstrated cause outside /repo: linear_operator's root_inv_decomposition of the Kronecker+diag operator
+        out.fail("external:linear_operator:KroneckerProductAddedDiag.root_inv_decomposition",
+                 "installed linear_operator returns R with R R^T != (Kxx+S)^-1 for a Kronecker multitask train covariance "
+                 "when Cholesky is disabled (max_cholesky_size(0)) and fast_pred_var is on; gpytorch's covar_cache inherits it",
+                 desc, impl=res["cov"], model=[[float(v) for v in r] for r in mc])
+        return
     if bad:
         out.fail("posterior-cov:%s" % path, "posterior covariance differs from K** - K*x (Kxx+S)^-1 Kx*", desc,
                  impl=res["cov"], model=[[float(v) for v in r] for r in mc])
@@ -204,6 +350,8 @@ def compare(out, case, flags, res, mm, mc):
             out.fail("posterior-var:%s" % path, "posterior variance differs from the diagonal of the conditional", desc,
                      impl=res["var"], model=[float(mc[k][k]) for k in range(t)])
             break
+    if res.get("added") is None:
+        return
     # likelihood(posterior) adds exactly the observation noise, once
     for i in range(t):
         for j in range(t):
@@ -218,27 +366,40 @@ def compare(out, case, flags, res, mm, mc):
 def run(out, ctx):
     tier, seed = ctx["tier"], ctx["seed"]
     rng = random.Random(seed * 7919 + 1)
-    ncases = 60 if tier == "quick" else 600
+    nc = dict(single=44, batch=10, multitask=10) if tier == "quick" else dict(single=400, batch=120, multitask=100)
     flagnames = sorted(FLAGS)
-    cases = [gen_case(rng, tier) for _ in range(ncases)]
+    cases = [gen_case(rng, tier, fam) for fam in ("single", "batch", "multitask") for _ in range(nc[fam])]
     prior = [impl_inputs(c) for c in cases]
-    res = C.coq_run_cases("C01", IMPORTS, RUN_DEF, [coq_case(c, *p) for c, p in zip(cases, prior)], shard=8)
-    out.rule = ("random exact-GP problems (n<=%d, t<=3, d<=3, 10 kernels x 3 means x 3 likelihoods), each under the "
-                "default settings, every single non-default flag and random flag subsets; non-trivial = n>=2 and "
-                "posterior covariance differs from the prior block by >1e-6" % (5 if tier == "quick" else 7))
+    coq_cases, owner = [], []
+    for ci, (c, els) in enumerate(zip(cases, prior)):
+        for b, (KJ, mu, S, y) in enumerate(els):
+            ntr = len(S)
+            coq_cases.append(coq_case(ntr, len(mu) - ntr, KJ, mu, S, y)); owner.append((ci, b))
+    res = C.coq_run_cases("C01", IMPORTS, RUN_DEF, coq_cases, shard=6)
+    out.rule = ("random exact-GP problems: single-output (n<=%d, t<=3, d<=3, 10 kernels x 3 means x 3 likelihoods), batched "
+                "(5 parameter/data broadcast patterns, every batch element compared with its own closed form) and "
+                "Kronecker multitask (2 tasks, task-kernel rank 0/1, task-noise rank 0/1); each under the default settings, "
+                "every single non-default flag and random flag subsets; non-trivial = n_train>=2 and posterior variance "
+                "differs from the prior by >1e-6" % (5 if tier == "quick" else 7))
     out.extra["tolerances"] = {"dense/cholesky": 1e-8, "cg or lanczos(full rank), cond<=%g" % COND_MAX: 1e-5,
                                 "marginal noise": 1e-9}
-    for case, (KJ, mu, S), r in zip(cases, prior, res):
+    model_by_case = {}
+    for (ci, b), r in zip(owner, res):
         rd = C.Reader(r)
+        KJ, mu, S, y = prior[ci][b]
+        ntr = len(S); t = len(mu) - ntr
         if rd.int() != 1:
-            out.fail("model:singular", "model could not invert Kxx+S (exact rational)", case, no_input=False)
+            out.fail("model:singular", "model could not invert Kxx+S (exact rational)", cases[ci])
             continue
-        t, n = case["t"], case["n"]
-        mm = rd.qs(t)
-        mc = rd.qmat(t, t)
-        nontrivial = n >= 2 and any(abs(float(mc[i][i]) - KJ[n + i][n + i]) > 1e-6 for i in range(t))
-        A = torch.tensor([[KJ[i][j] + float(S[i][j]) for j in range(n)] for i in range(n)])
-        cond = float(torch.linalg.cond(A))
+        mm = rd.qs(t); mc = rd.qmat(t, t)
+        A = torch.tensor([[KJ[i][j] + float(S[i][j]) for j in range(ntr)] for i in range(ntr)])
+        model_by_case.setdefault(ci, {})[b] = (mm, mc, float(torch.linalg.cond(A)),
+                                               ntr >= 2 and any(abs(float(mc[i][i]) - KJ[ntr + i][ntr + i]) > 1e-6 for i in range(t)))
+    for ci, case in enumerate(cases):
+        if ci not in model_by_case:
+            continue
+        els = model_by_case[ci]
+        cond = max(v[2] for v in els.values())
         combos = [()] + [(f,) for f in flagnames]
         for _ in range(2 if tier == "quick" else 6):
             combos.append(tuple(f for f in flagnames if rng.random() < 0.4))
@@ -246,31 +407,42 @@ def run(out, ctx):
             if cond > COND_MAX and ITERATIVE & set(flags):
                 out.count("rejected: cond(Kxx+S)>%g on an iterative path" % COND_MAX)
                 continue
-            out.case(dict(n=n, t=t, d=case["d"], kernel=case["kernel"], mean=case["mean"], lik=case["lik"],
-                          flags=sorted(flags)), nontrivial, label="flags=" + ("+".join(sorted(flags)) or "default"))
-            out.count("kernel=" + case["kernel"]); out.count("lik=" + case["lik"]); out.count("n=%d" % n)
+            fam = case["family"]
+            out.case(dict(family=fam, n=case["n"], t=case["t"], d=case["d"], kernel=case["kernel"], mean=case["mean"],
+                          lik=case["lik"], pattern=case.get("pattern"), flags=sorted(flags)),
+                     any(v[3] for v in els.values()), label="flags=" + ("+".join(sorted(flags)) or "default"))
+            out.count("family=" + fam); out.count("kernel=" + case["kernel"]); out.count("lik=" + case["lik"])
+            out.count("n=%d" % case["n"])
+            if fam == "batch":
+                out.count("pattern=" + case["pattern"])
             try:
                 got = impl_outputs(case, flags)
             except Exception as e:  # the implementation rejects a configuration the property covers
-                out.fail("impl-exception:%s:%s" % (type(e).__name__, "+".join(sorted(flags))),
+                out.fail("impl-exception:%s:%s:%s" % (fam, type(e).__name__, "+".join(sorted(flags))),
                          "implementation raised %r" % e, dict(case=case, flags=sorted(flags)))
                 continue
-            compare(out, case, set(flags), got, mm, mc)
+            if len(got) != len(els):
+                out.fail("batch-shape:%s" % fam, "posterior batch size %d differs from the broadcast batch %d" % (len(got), len(els)),
+                         dict(case=case, flags=sorted(flags)))
+                continue
+            for b, (mm, mc, _, _) in els.items():
+                compare(out, case, set(flags), got[b], mm, mc, b)
     out.tested_not_proved = ["agreement of torch/linear_operator numerics (Cholesky, CG, Lanczos) with exact algebra"]
 
 
 def replay(path):
     d = json.load(open(path))
-    case, flags = d["case"]["case"], d["case"]["flags"]
-    KJ, mu, S = impl_inputs(case)
-    r = C.coq_run_cases("C01_replay", IMPORTS, RUN_DEF, [coq_case(case, KJ, mu, S)])[0]
+    case, flags, b = d["case"]["case"], d["case"]["flags"], d["case"].get("batch_element", 0)
+    KJ, mu, S, y = impl_inputs(case)[b]
+    ntr = len(S); t = len(mu) - ntr
+    r = C.coq_run_cases("C01_replay", IMPORTS, RUN_DEF, [coq_case(ntr, t, KJ, mu, S, y)])[0]
     rd = C.Reader(r); rd.int()
-    mm = rd.qs(case["t"]); mc = rd.qmat(case["t"], case["t"])
-    got = impl_outputs(case, flags)
-    print("flags", flags)
+    mm = rd.qs(t); mc = rd.qmat(t, t)
+    got = impl_outputs(case, flags)[b]
+    print("flags", flags, "batch element", b)
     print("impl mean ", got["mean"]); print("model mean", [float(v) for v in mm])
     print("impl cov  ", got["cov"]); print("model cov ", [[float(v) for v in r] for r in mc])
     out = C.Outcome("C01", "quick", 0)
-    compare(out, case, set(flags), got, mm, mc)
+    compare(out, case, set(flags), got, mm, mc, b)
     print("FAILS" if out.failures else "agrees")
     return 1 if out.failures else 0
